@@ -62,6 +62,7 @@ PLAN = {
         "jobs": [
             {"monitor": "c03_hist", "variant": "rel", "shards": 16},
             {"monitor": "c03_hist", "variant": "dbg", "shards": 16},
+            {"monitor": "c03_hist", "variant": "pointer", "shards": 8},
             # concurrent bubble sort of set_var_order (>= 65536 nodes, 4 workers): full audit after each reordering
             {"monitor": "c08_large", "variant": "rel", "shards": {"quick": 4, "thorough": 16}, "parallel": 4},
         ],
@@ -143,7 +144,8 @@ PLAN = {
                 "f with ONE Subst object reused for all 256 f; alternating substitutions on the same variable with gc between; "
                 "random instances n=4..8 (split depth 0/1/2/MAX); the trait's DEFAULT apply_forall/exists/unique on a newtype function "
                 "providing only the required methods; 13..16-variable operands with the automatic split depth; substitutions "
-                "created on 4 threads at once. distinct = distinct (kind, op, operands, set/cube/vector, order) with non-constant result.",
+                "created on 4 threads at once; managers with 31..200 variables where sets/cubes/substitutions also name variables "
+                "the operands do not depend on. distinct = distinct (kind, op, operands, set/cube/vector, order) with non-constant result.",
         "assumptions": ["truth-table model is the specification"],
         "jobs": [
             {"monitor": "c04_exh", "variant": "rel", "shards": 30},
@@ -152,6 +154,8 @@ PLAN = {
             {"monitor": "c04_rand", "variant": "st", "shards": 8},
             {"monitor": "c04_defaults", "variant": "rel", "shards": 6},
             {"monitor": "c04_deep", "variant": "rel", "shards": 16},
+            {"monitor": "c04_wide", "variant": "rel", "shards": 8},
+            {"monitor": "c04_wide", "variant": "dbg", "shards": 8},
             # substitutions created concurrently must get distinct ids (the id is the apply-cache key)
             {"monitor": "c06_subst_ids", "variant": "rel", "shards": 2, "nondeterministic": True},
         ],
@@ -268,7 +272,8 @@ PLAN = {
                 "structural audit); TDD export-only. Faults: every truncation point of 12 corpus files plus seeded mutations (bit flips, "
                 "byte/line edits, header-count edits, node-number edits, splices): load+import must return, never panic; an Ok import "
                 "must have the right roots, pass the structural audit and match an independent evaluation of the node lines. Huge "
-                "header counts in a child process under ulimit. distinct = distinct round-trip configurations + distinct mutant files "
+                "header counts in a child process under ulimit. Dense random functions over 12..15 variables (thousands of nodes, "
+                "1..3 roots) round-tripped in binary and ASCII into the same and a fresh manager. distinct = distinct round-trip configurations + distinct mutant files "
                 "by outcome class.",
         "assumptions": ["host allocation failure for absurd header counts is observed, not judged", "the pointer backend is exercised by C20"],
         "jobs": [
@@ -276,6 +281,9 @@ PLAN = {
             {"monitor": "c15_malformed", "variant": "rel", "shards": 16},
             {"monitor": "c15_malformed", "variant": "dbg", "shards": 16},
             {"monitor": "c15_huge", "variant": "rel", "shards": 1},
+            # files with thousands of nodes: node references and escaped bytes that small files never contain
+            {"monitor": "c15_large", "variant": "rel", "shards": 8},
+            {"monitor": "c15_large", "variant": "dbg", "shards": 8, "tiers": ("thorough",)},
         ],
         "require_counters": {"all": ["roundtrips", "truncations", "files_mutated", "import_errors"]},
     },
@@ -306,6 +314,7 @@ PLAN = {
             {"monitor": "c07_mtbdd", "variant": "tsan", "shards": 8, "nondeterministic": True},
             {"monitor": "c07_stress", "variant": "rel", "shards": 16, "parallel": 4, "nondeterministic": True},
             {"monitor": "c07_stress", "variant": "dbg", "shards": 8, "parallel": 4, "nondeterministic": True},
+            {"monitor": "c07_stress", "variant": "pointer", "shards": 8, "parallel": 4, "nondeterministic": True},
             {"monitor": "c07_stress", "variant": "tsan", "shards": 8, "parallel": 4, "nondeterministic": True},
             {"monitor": "c07_stress", "variant": "asan", "shards": 8, "parallel": 4, "nondeterministic": True, "tiers": ("thorough",)},
             {"monitor": "c07_tiny", "variant": "tsan", "shards": 16, "nondeterministic": True},
@@ -331,6 +340,8 @@ PLAN = {
             {"monitor": "c16_map_leak", "variant": "rel", "shards": 1},
             {"monitor": "c16_mgr", "variant": "rel", "shards": 16},
             {"monitor": "c16_mgr", "variant": "dbg", "shards": 8},
+            # the pointer-based manager has its own add_vars / add_named_vars / level bookkeeping
+            {"monitor": "c16_mgr", "variant": "pointer", "shards": 8},
             # Miri (manual memory management of the names): 1/64 of the sequence space per shard, ~3 min each
             {"monitor": "c16_map_exh", "variant": "miri", "shards": 64, "only_shards": 16, "param": "hard", "timeout": {"thorough": 3000}, "tiers": ("thorough",)},
         ],
@@ -428,6 +439,10 @@ PLAN = {
             {"monitor": "c05_hist", "variant": "pointer", "shards": 8},
             {"monitor": "c08_rand", "variant": "pointer", "shards": 8},
             {"monitor": "c06_diff", "variant": "pointer", "shards": 8},
+            {"monitor": "c03_hist", "variant": "pointer", "shards": 8},
+            # >= 65536 nodes on 4 workers: the concurrent paths of set_var_order, on both node stores
+            {"monitor": "c08_large", "variant": "rel", "shards": 2, "parallel": 2},
+            {"monitor": "c08_large", "variant": "pointer", "shards": 2, "parallel": 2},
         ],
         "require_counters": {"all": ["histories", "suites", "digests_compared_across_variants"]},
     },
@@ -458,7 +473,8 @@ PLAN = {
                 "satisfiable/valid for every function, ite triples (quick: 1/16 sample; thorough: all 2^24), for "
                 "{bdd,bcdd,zbdd} x 6 variable orders x threads {1,4}; n=4..8 random operands (split depth 0/1/2/MAX, eval with "
                 "shuffled / repeated / omitted arguments); single-threaded function types (variant st); 13..16-variable dense "
-                "operands on 2..8 workers with the automatic split depth. distinct = distinct "
+                "operands on 2..8 workers with the automatic split depth; managers with 31..200 variables and functions over 6 "
+                "scattered active ones, evaluated on assignments of all variables. distinct = distinct "
                 "(kind, operator, operand tables, order, threads) tuples whose result is not constant.",
         "assumptions": ["truth-table model in harness/src/tt.rs is the specification",
                         "exhaustive only for 3 variables; larger n sampled from VERIF_SEED"],
@@ -473,6 +489,9 @@ PLAN = {
             {"monitor": "c02_pairs", "variant": "st", "shards": 36, "tiers": ("thorough",)},
             # automatic split depth: parallel -> sequential hand-over in the middle of an operation
             {"monitor": "c02_deep", "variant": "rel", "shards": 16},
+            # 31..200 variables: bit-set word boundaries in eval / pick_cube / level maps
+            {"monitor": "c02_wide", "variant": "rel", "shards": 8},
+            {"monitor": "c02_wide", "variant": "dbg", "shards": 8},
             {"monitor": "c02_deep", "variant": "dbg", "shards": 8, "tiers": ("thorough",)},
         ],
         "require_counters": {"all": ["cases_with_at_least_split_depth_levels"]},
